@@ -363,7 +363,7 @@ def walker(draw, norb, nelec, restricted=False, frame=None):
 
 @st.composite
 def hamiltonian(draw, norb, spin_dependent=False, nchol=None, chol_kinds=("generic", "generic", "generic", "diagonal", "zero")):
-    nchol = draw(st.integers(1, 3)) if nchol is None else nchol
+    nchol = draw(st.sampled_from([1, 2, 2, 3, 3])) if nchol is None else nchol
     h0 = draw(st.sampled_from([0.0, 0.7, -3.25]))
     a = draw(real((norb, norb)))
     h1a = (a + a.T) / 2
